@@ -49,6 +49,10 @@ CHECKS = {
    text="Seeded injection of hostile datagrams (grammar-aware mutants of captured traffic, noise, reassembly floods) at drawn instants of 13 handshake variants and 13 data configurations, towards either endpoint and from spoofed or unrelated addresses. Panics in library goroutines are caught by an injected recover and reported with their stack; runs that never become quiescent again are detected by step/wall budgets and a parent-process watchdog and confirmed in a fresh process; buffer sizes are read through an accessor at quiescent points; with only unparseable or unauthenticatable input the genuine handshake must complete and data must flow.",
    note="Correctly protected but malformed content from an authenticated peer is not generated yet (needs the independent record layer). Handshake-phase injection of parseable cleartext handshake records may legitimately derail a handshake and is held to the safety clauses only.",
    technique="deterministic simulation: seeded hostile-datagram injection with crash, livelock and buffer-bound oracles"),
+ "C13": dict(level="fault_enumeration", design="§5 C13",
+   text="A real server is driven by a scripted unauthenticated sender built on a genuine ClientHello: every kind of second ClientHello (cookie absent, wrong, stale, truncated, extended, right cookie with one altered field) after a first one is enumerated for DTLS 1.2, 1.3 and dual-stack servers with several repetition/timing settings, and longer mixed sequences with gaps up to ten virtual minutes and changing source addresses are sampled. Everything the server emits is parsed by the independent wire monitor and compared with a reference predicate for 'valid echo'.",
+   note="The sender is a byte-level script (no second protocol stack): cookies are spliced into the captured ClientHello (cookie field for 1.2, cookie extension for 1.3). The bytes-out/bytes-in ratio is not a verdict (the statement bounds the kind of message, not its size).",
+   technique="deterministic simulation: enumerated and sampled scripted-peer sequences against a wire-level reference predicate"),
 }
 
 NOT_YET = {}
